@@ -3,7 +3,7 @@
 From Coq Require Import ExtrOcamlBasic.
 From Coq Require Import List ZArith String.
 From Coq Require Import NArith.
-From IprV Require Import GenTypes Visitor Bits Arena.
+From IprV Require Import GenTypes Visitor Bits Arena Lexicon LexiconProofs.
 From IprV.gen Require Import GenCategory GenIface GenVisitor GenAccept GenWords GenLexAcc.
 Import ListNotations.
 
@@ -42,7 +42,22 @@ Definition c03_intern (p : pool) (w : word) : pool * strnode * intern_tag := int
 Definition c03_chars (p : pool) (n : strnode) : option word := chars_of c03_known p n.
 Definition c03_node_block (p : pool) (i : nat) : option block := option_map d_block (nth_error (p_nodes p) i).
 
+(* C01/C04/C11/C13: the unification model over the regenerated word tables *)
+Definition ix_of (w : string) : nat := match str_index w gen_known_words with Some i => i | None => 0 end.
+Definition lex_builtin_words : list nat := map ix_of gen_builtins.
+Definition lex_builtin_void : nat := match str_index "Void"%string gen_fundamental with Some i => i | None => 0 end.
+Definition lex_step (m : table) (r : request) : table * option nid :=
+  step c03_known lex_builtin_words (ix_of "default") (ix_of "this") (ix_of "C") (ix_of "C++") lex_builtin_void key_eqb m r.
+Definition lex_key_of (m : table) (n : nid) : option key := key_of m n.
+Definition lex_xfer_val (m : table) (x : nid) : option xval := xfer_val c03_known (ix_of "C++") m x.
+Definition lex_linkage_word (m : table) (l : nid) : option word := linkage_word c03_known (ix_of "C") (ix_of "C++") m l.
+Definition lex_cc_word (m : table) (c : nid) : option word := cc_word c03_known m c.
+Definition lex_fundamental : list string := gen_fundamental.
+Definition lex_builtin_spellings : list string := gen_builtins.
+
 Extraction "extracted/genmodel.ml" c06_rows
+  lex_step lex_key_of lex_xfer_val lex_linkage_word lex_cc_word lex_fundamental lex_builtin_spellings
+  lex_builtin_words ix_of
   c03_known c03_intern c03_chars c03_node_block pool_init allocate arena_init a_npools a_chain
   c10_table c10_union c10_decomp c10_decomp_mask c10_project c10_accessors c10_known_words
   Bits.implies N.lor N.land N.lxor.
